@@ -51,15 +51,25 @@ def parseReq (j : Json) : Except String Req := do
   let oracle := match j.getObjVal? "oracle" with | .ok o => o | .error _ => Json.null
   return ⟨k, args, fuel, draws, oracle⟩
 
+def errOfName (s : String) : Err :=
+  if s == "ValueError" then .value else if s == "TypeError" then .type else if s == "IndexError" then .index
+  else if s == "LagtimeError" then .lagtime else if s == "AssertionError" then .assertion else .other
+
+/-- the error an oracle raised in the real run: `"oracle": {key ++ "_err": kind}` -/
+def oracleErr (key : String) (r : Req) : Err :=
+  match r.oracle.getObjVal? (key ++ "_err") with
+  | .ok (Json.str e) => errOfName e
+  | _ => .other
+
 /-- stand-in for an ORACLE parameter of a translated function when it is RUN by the harness: the answer the real external
-function gave on this input is supplied in the request (`"oracle": {key: value}`); an absent key means the oracle raised -/
+function gave on this input is supplied in the request (`"oracle": {key: value}`), or the kind of error it raised -/
 def oracleVec (key : String) (r : Req) : List (List Rat) → Py (List Rat) := fun _ =>
   match r.oracle.getObjVal? key with
   | .ok j =>
     match (JCodec.dec j : Except String (List Rat)) with
     | .ok v => .ok v
     | .error _ => .error .other
-  | .error _ => .error .other
+  | .error _ => .error (oracleErr key r)
 
 /-- stand-in for an oracle that is called several times: the request carries the table of (argument, answer) pairs the real
 external function produced, `"oracle": {key: [[arg, answer], …]}` -/
@@ -74,10 +84,6 @@ def oracleTable (key : String) (r : Req) : List Rat → Py (List Int) := fun x =
     | .error _ => .error .other
   | .error _ => .error .other
 
-def errOfName (s : String) : Err :=
-  if s == "ValueError" then .value else if s == "TypeError" then .type else if s == "IndexError" then .index
-  else if s == "LagtimeError" then .lagtime else if s == "AssertionError" then .assertion else .other
-
 /-- stand-in for the eigen-solver oracle (called once): `"oracle": {key: [eigenvalues, eigenvectors]}`, or
 `{key ++ "_err": kind}` when the real solver raised -/
 def oracleEig (key : String) (r : Req) : List (List Rat) → Int → Py (List Rat × List (List Rat)) := fun _ _ =>
@@ -86,10 +92,7 @@ def oracleEig (key : String) (r : Req) : List (List Rat) → Int → Py (List Ra
     match (JCodec.dec j : Except String (List Rat × List (List Rat))) with
     | .ok v => .ok v
     | .error _ => .error .other
-  | .error _ =>
-    match r.oracle.getObjVal? (key ++ "_err") with
-    | .ok (Json.str e) => .error (errOfName e)
-    | _ => .error .other
+  | .error _ => .error (oracleErr key r)
 
 partial def loop (dispatch : Req → Except String Json) (h out : IO.FS.Stream) : IO Unit := do
   let line ← h.getLine
